@@ -34,6 +34,7 @@ type Config struct {
 	Seed          int64             `json:"seed"`
 	Out           string            `json:"out"`
 	LibDir        string            `json:"lib_dir"`
+	SolverBin     string            `json:"solver"`
 	DumpSMT       string            `json:"dump_smt"`
 	PerHarness    map[string]*HarnessOpts `json:"per_harness"`
 
@@ -118,7 +119,7 @@ func explore(prog *ssa.Program, pkg *ssa.Package, cfg *Config, hname string) *Ha
 		wg.Add(1)
 		go func(w int) {
 			defer wg.Done()
-			sol, err := NewSolver(hcfg.TimeoutMS)
+			sol, err := NewSolver(hcfg.TimeoutMS, hcfg.SolverBin)
 			if err != nil {
 				mu.Lock()
 				inconc["cannot start solver: "+err.Error()] = true
